@@ -879,6 +879,23 @@ func genCmap(t *rapid.T, n int, o Opts, noLiga bool, c *Case, fl *filler) (cmap.
 		}
 		c.label(fmt.Sprintf("cmap-mac-%d", len(langs)))
 	}
+	if n <= 256 && rapid.IntRange(0, 5).Draw(t, "byteEncodingKeys") == 0 {
+		// a byte encoding table (format 0) under a key that is not the
+		// Macintosh one: codes 0..255 are character codes as they stand
+		// (symbol fonts, old Unicode-keyed tables)
+		b0 := &cmap.Format0{}
+		for r, g := range m {
+			if r < 256 {
+				b0.Data[r] = byte(g)
+			}
+		}
+		if rapid.Bool().Draw(t, "byteEncodingExtra") {
+			b0.Data[rapid.IntRange(0, 255).Draw(t, "byteCode")] = byte(rapid.IntRange(1, n-1).Draw(t, "byteGid"))
+		}
+		key := rapid.SampledFrom([]cmap.Key{{PlatformID: 3, EncodingID: 0}, {PlatformID: 0, EncodingID: 0}, {PlatformID: 0, EncodingID: 1}}).Draw(t, "byteEncodingKey")
+		tbl[key] = b0.Encode(0)
+		c.label("cmap-format0-not-mac")
+	}
 	return tbl, m
 }
 
